@@ -15,7 +15,7 @@ from sa.aliasderef import AliasDeref, catches_both, enclosing_catch
 from sa.reach import eval3
 from sa.report import Ctx
 from sa.srcmodel import AnalysisError, FunctionInfo, Program, ancestors, dotted, norm, parent, unparse, walk_no_nested
-from sa.util import calls_in, cfg_of, key, node_index, path_text, stmt_of, stores_of, where
+from sa.util import canon_text, calls_in, cfg_of, key, node_index, path_text, stmt_of, stores_of, where
 
 AE = {"AliasResolutionError", "CyclicAliasError"}
 CATCH_ALL = {"GriffeError", "ResolutionError", "Exception", "BaseException"}
@@ -337,25 +337,26 @@ def run(prog: Program, ctx: Ctx) -> None:  # noqa: PLR0912,PLR0915
     ef = ad.ef
     ctx.analysed["R4_raising_alias_attributes"] = len(ad.raising)
     ctx.analysed["R4_safe_alias_attributes"] = sorted(ad.safe)
+    # keys use canonical names (sa.util.canon_names: parameters p0.., other bound names v0.. by first binding), so renaming variables changes nothing
     TABLED = {
-        ("_griffe.loader.GriffeLoader.resolve_module_aliases", "member.final_target"):
+        ("_griffe.loader.GriffeLoader.resolve_module_aliases", "v2.final_target"):
             "in the `else:` of the try whose body is member.resolve_target(): the whole chain was just resolved",
-        ("_griffe.loader.GriffeLoader.resolve_module_aliases", "obj.package"):
+        ("_griffe.loader.GriffeLoader.resolve_module_aliases", "p1.package"):
             "`obj` is the traversal root: callers pass collection modules or members dominated by `not member.is_alias` (checked below)",
-        ("_griffe.loader.GriffeLoader.resolve_module_aliases", "obj.members"): "same",
-        ("_griffe.loader.GriffeLoader._expand_wildcard", "module.members"):
+        ("_griffe.loader.GriffeLoader.resolve_module_aliases", "p1.members"): "same",
+        ("_griffe.loader.GriffeLoader._expand_wildcard", "v0.members"):
             "only called from expand_wildcards inside the handler for both alias errors (checked below)",
-        ("_griffe.merger._merge_function_stubs", "parameter.annotation"): "loop variable over Parameters: a Parameter, never an alias",
-        ("_griffe.mixins.SetMembersMixin.set_member", "self.members[parts[0]].set_member"):
+        ("_griffe.merger._merge_function_stubs", "v0.annotation"): "loop variable over Parameters: a Parameter, never an alias",
+        ("_griffe.mixins.SetMembersMixin.set_member", "self.members[v0[0]].set_member"):
             "dotted key through an alias raises to the API caller by design; loader call sites pass single names or are guarded",
-        ("_griffe.loader.GriffeLoader.expand_exports", "export.canonical_path"): "ExprName.canonical_path (isinstance-narrowed), not an alias proxy",
+        ("_griffe.loader.GriffeLoader.expand_exports", "v1.canonical_path"): "ExprName.canonical_path (isinstance-narrowed), not an alias proxy",
     }
     scope = [f for f in prog.functions.values() if f.module.name in ("_griffe.loader", "_griffe.merger")
              or f.qualname.startswith("_griffe.mixins.SetMembersMixin.set_member")]
     sites = ad.scan(scope, TABLED)
     n_sites = len(sites)
     for st in sites:
-        ctx.ob("R4", key(st.fn, f"deref:{norm(st.node, 60)}"), st.status != "OPEN",
+        ctx.ob("R4", key(st.fn, f"deref:{canon_text(st.fn, st.node)}"), st.status != "OPEN",
                (f"{st.status}: {st.reason}" if st.status != "OPEN" else st.reason + ": the error would abort loading"), where(st.fn, st.node))
     ctx.expect_min("R4", n_sites, 15)
     ctx.analysed["R4_dereference_sites"] = n_sites
